@@ -110,7 +110,8 @@ def build_measurement(measurementspec, modifiertypes):
         # we found luminosity, so handle it
         if parameter['name'] == 'lumi':
             lumi = parameter['auxdata'][0]
-            lumierr = parameter['sigmas'][0]
+            # HistFactory stores the uncertainty relative to the luminosity
+            lumierr = parameter['sigmas'][0] / lumi
 
     # define measurement
     meas = ET.Element(
